@@ -513,7 +513,7 @@ class GeneInfo:
                     self.feature_attributes[gene_db.id] += '%s "%s"; ' % (attr, gene_db.attributes[attr][0])
             for t in self.db.children(gene_db, featuretype=('transcript', 'mRNA')):
                 for attr in t.attributes.keys():
-                    if attr in ['transcript_id', 'gene_id', 'ID', 'level', 'exons', 'Parent']:
+                    if attr in ['transcript_id', 'gene_id', 'ID', 'level', 'exons', 'Canonical', 'Parent']:
                         continue
                     if t.attributes[attr]:
                         self.feature_attributes[t.id] += '%s "%s"; ' % (attr, t.attributes[attr][0])
